@@ -2,8 +2,21 @@
  * T <tablelist>        load; prints "T <ok> <hasdict>"   (t: same, silent)
  * C <c>                prints "C c isletter lower ishyphen"
  * W <mode> c c c ...   prints "W ret | h0 h1 ... h_inlen" (bytes as numbers, 88 = untouched)
+ *                      or "W HANG <site> ticks=<n>" when the call exceeds the step budget (loop-head hook):
+ *                      budget = 64 * (inlen + 4) * 64 loop heads - the automaton walk needs at most
+ *                      (inlen + 2) * (longest fallback chain) of them
  */
+#include <setjmp.h>
 #include "tbl.h"
+
+static jmp_buf hang_jmp;
+static int hang_site = -1;
+static void
+tick_over(int site) {
+	hang_site = site;
+	_lou_verif_tick_budget = 0;
+	longjmp(hang_jmp, 1);
+}
 int
 main(void) {
 	static char tl[4096];
@@ -31,10 +44,21 @@ main(void) {
 			char *hy = h_exact(inlen + 1);
 			for (k = 0; k < inlen; k++) in[k] = (widechar)v[k + 1];
 			memset(hy, 88, inlen + 1);
-			r = lou_hyphenate(tl, in, inlen, hy, mode);
-			printf("W %d |", r);
-			for (k = 0; k <= inlen; k++) printf(" %d", (unsigned char)hy[k]);
-			printf("\n");
+			_lou_verif_tick_over = tick_over;
+			_lou_verif_tick_total = 0;
+			_lou_verif_tick_budget = 4096UL * (unsigned long)(inlen + 4);
+			if (setjmp(hang_jmp) == 0) {
+				r = lou_hyphenate(tl, in, inlen, hy, mode);
+				_lou_verif_tick_budget = 0;
+				printf("W %d |", r);
+				for (k = 0; k <= inlen; k++) printf(" %d", (unsigned char)hy[k]);
+				printf("\n");
+			} else {
+				/* the call was abandoned in the middle: its scratch memory is lost, the library state is reset */
+				printf("W HANG %d ticks=%lu\n", hang_site, _lou_verif_tick_total);
+				lou_free();
+				t = lou_getTable(tl);
+			}
 			free(in);
 			free(hy);
 		}
